@@ -80,10 +80,15 @@ PROPS = {
     "C08": dict(
         families=[dict(name="pipe", args=["-specs", "18,23,5,27"])],
         level_text="Theorems C08_once_and_order, C08_owners_visited_first, C08_scope, C08_cycle_run/commit/checkout/status, "
-                   "C08_cycle_never_executed, C08_terminates over the model of Index.Run/Commit/Checkout/Status for every "
+                   "C08_cycle_never_executed, C08_terminates, C08_commit_scope_exact / C08_commit_others_untouched / "
+                   "C08_checkout_others_untouched / C08_readonly_world / C08_status_scope_exact (a command on explicit "
+                   "targets visits exactly the targets' upstream closure and leaves the stage files, index and output "
+                   "artifacts of every other stage untouched) over the model of Index.Run/Commit/Checkout/Status for every "
                    "index, target list, cache and stage-command semantics. Tied to the code by running generated DAGs "
                    "(diamonds, skip connections, inputs nested in directory outputs) and cyclic graphs through the CLI with "
-                   "real shell commands that append to an execution log; the log is validated in Coq.",
+                   "real shell commands that append to an execution log; the log is validated in Coq; commit / checkout / "
+                   "status on one stage of a larger pipeline must leave every out-of-scope stage file (bytes, inode, mtime) "
+                   "and artifact untouched (scope computed in Coq).",
         level_note="graph/push/fetch share the skeleton in Go but only their traversal/exit code is modelled; the order "
                    "of map iteration is replaced by list order and the theorems hold for every index order.",
         assumptions=["stage commands behave as `rm -f dst && cat srcs > dst` in the correspondence runs"],
@@ -104,11 +109,15 @@ PROPS = {
                   dict(name="pipe", args=["-specs", "13"])],
         level_text="Theorems C12_mutex, C12_refused_clean, C12_released, C12_quiescent_unlocked, C12_bounded over a "
                    "transition system of any number of dud processes with arbitrary interleaving (atomic O_EXCL acquire, "
-                   "release of the path that was locked, pull's unlock/relock, config get/set without chdir), plus "
+                   "release of the path that was locked, pull's unlock/relock, config get/set without chdir), C12_work_while_held (for every "
+                   "subcommand descriptor the work happens only between creation and removal of the lock file), plus "
                    "C12_prerepair_refuted (the cwd-relative release leaves the lock behind). proof, partial: OS scheduling "
                    "and O_EXCL atomicity are assumptions. Tied to the code by running every subcommand x invocation "
                    "directory x outcome class x pre-existing lock and comparing exit class and lock presence with the model, "
-                   "and by N concurrent `dud run` released together with an atomic-mkdir sentinel in the stage command.",
+                   "by N concurrent `dud run` released together with an atomic-mkdir sentinel in the stage command, and by the "
+                   "ptrace log of single invocations of every locking subcommand (pull included) projected to lock-created / "
+                   "lock-removed / other-mutating-call events: the lock events must be the model's and every change must "
+                   "happen while the lock is held.",
         level_note="The descriptor table (which subcommand locks, chdirs, relocks) is asserted in Model/Lock.v and checked "
                    "against src/cmd through the matrix runs. Killed processes are outside the property.",
         assumptions=["open(O_CREAT|O_EXCL) is atomic", "a process is not killed (exits on its own)"],
